@@ -280,6 +280,7 @@ func runC01(c *Check) {
 	ruleValidatorFacts(c, p)
 	ruleValidatorAgreesWithBuilder(c, p)
 	ruleFirstBlockMatchesInitialState(c, p)
+	rulePersistedStateLoadable(c, p, "C01-R12")
 	ruleEmptyHashConst(c, p)
 	ruleNextState(c, p)
 }
